@@ -409,7 +409,7 @@ class SeededRandomPlay:
 
 
 class ScriptedBid:
-    """bids a fixed list of calls per board (then passes); calls are Bid values; illegal ones fall back to Pass"""
+    """makes a fixed list of calls per board, each as soon as it is legal (otherwise, and afterwards, passes); calls are Bid values"""
 
     def __init__(self, script):
         self.script = [list(s) for s in script]
@@ -422,10 +422,9 @@ class ScriptedBid:
             self.last_env = bidding_phase
             self.board += 1
         s = self.script[self.board] if self.board < len(self.script) else []
-        while s:
-            b = Bid(s.pop(0))
-            if bidding_phase.available_bid[b.idx] == 1:
-                return b
+        # the next scripted call is made as soon as it is legal (until then the seat passes and keeps it)
+        if s and bidding_phase.available_bid[Bid(s[0]).idx] == 1:
+            return Bid(s.pop(0))
         return Bid.Pass
 
 
